@@ -1,3 +1,4 @@
+import OutlineModel.Proofs.TieReplay
 import OutlineModel.Proofs.Replay
 import OutlineModel.Gen.Consts
 import OutlineModel.Gen.Wiring
@@ -106,5 +107,90 @@ example : ((run Gen.maxCapacity (({cap := 2, active := [], archive := []} : RC).
   window (N := 2) _ 7 [.add 8] (by decide) (by simp [capsGE]) (by simp [numAdds])
 example : winners Gen.maxCapacity 7 ({cap := 3, active := [1], archive := [2]} : RC) [.add 7, .add 9, .add 7] = 1 := by decide
 example : (({cap := 2, active := [5], archive := []} : RC).add 5).2 = false := by decide
+
+
+/-! ### The same statements about the code itself
+
+`Gen.Code.preHash`, `Gen.Code.ReplayCache.Add`, `.Resize` and `Gen.Code.NewReplayCache` are TRANSLATED from
+service/replay.go on every run (extract/golean.go).  The theorems below say that, for all inputs, the
+translated functions never panic and do what the model does; `window_code` restates the window theorem
+directly over runs of the translated code. -/
+
+/-- the translated `preHash` never panics and is the model's checksum -/
+theorem code_preHash (id salt : List UInt8) : Gen.Code.preHash id salt = some (Replay.preHash id salt) :=
+  Tie.Replay.preHash_tie id salt
+
+/-- the translated `ReplayCache.Add` never panics and refines the model's `add` (abstraction: key sets) -/
+theorem code_add_refines_model (c : Gen.Code.ReplayCache) (id salt : List UInt8) :
+    (Gen.Code.ReplayCache.Add c id salt).map (fun p => (Tie.Replay.abs p.1, p.2)) =
+      some ((Tie.Replay.abs c).add (Replay.preHash id salt)) :=
+  Tie.Replay.add_tie c id salt _ (Tie.Replay.preHash_tie id salt)
+
+/-- the translated `Resize` and `NewReplayCache` are the model's, with the generated MaxCapacity -/
+theorem code_resize_new_refine_model (c : Gen.Code.ReplayCache) (n : Int) :
+    (Gen.Code.ReplayCache.Resize c n).map (fun p => (Tie.Replay.abs p.1, p.2.isNone)) = some ((Tie.Replay.abs c).resize Gen.maxCapacity n) ∧
+    (Gen.Code.NewReplayCache n).map Tie.Replay.abs = RC.new Gen.maxCapacity n ∧
+    Gen.Code.ReplayCache.Add.onNil = true :=
+  ⟨Tie.Replay.resize_tie c n, Tie.Replay.new_tie n, rfl⟩
+
+/-- a run of the translated `Add` over a list of (key id, salt) pairs -/
+def codeAdds (c : Gen.Code.ReplayCache) : List (List UInt8 × List UInt8) → Option Gen.Code.ReplayCache
+  | [] => some c
+  | (i, s) :: r => (Gen.Code.ReplayCache.Add c i s).bind (fun p => codeAdds p.1 r)
+
+theorem codeAdds_abs : ∀ (hs : List (List UInt8 × List UInt8)) (c : Gen.Code.ReplayCache),
+    (codeAdds c hs).map Tie.Replay.abs =
+      some (run Gen.maxCapacity (Tie.Replay.abs c) (hs.map fun p => Op.add (Replay.preHash p.1 p.2))) := by
+  intro hs
+  induction hs with
+  | nil => intro c; rfl
+  | cons p r ih =>
+    intro c
+    obtain ⟨i, s⟩ := p
+    have h := code_add_refines_model c i s
+    cases hA : Gen.Code.ReplayCache.Add c i s with
+    | none => simp [hA] at h
+    | some q =>
+      simp only [hA, Option.map_some, Option.some.injEq] at h
+      simp only [codeAdds, hA, Option.bind_some, List.map_cons, Replay.run, RC.step]
+      rw [ih q.1]
+      have : Tie.Replay.abs q.1 = ((Tie.Replay.abs c).add (Replay.preHash i s)).1 := by rw [← h]
+      rw [this]
+
+/-- **window_code**: the window theorem over the translated code: after `Add(id, salt)`, fewer than N further
+    `Add`s of anything, on a cache of capacity ≥ N > 0, the same handshake is refused by the translated `Add`. -/
+theorem window_code {N : Nat} (c0 : Gen.Code.ReplayCache) (id salt : List UInt8) (mid : List (List UInt8 × List UInt8))
+    (hcap : (N : Int) ≤ c0.capacity) (hnum : mid.length < N) :
+    ∃ c1 b c2 c3, Gen.Code.ReplayCache.Add c0 id salt = some (c1, b) ∧ codeAdds c1 mid = some c2 ∧
+      Gen.Code.ReplayCache.Add c2 id salt = some (c3, false) := by
+  have h1 := code_add_refines_model c0 id salt
+  cases hA : Gen.Code.ReplayCache.Add c0 id salt with
+  | none => simp [hA] at h1
+  | some q =>
+    obtain ⟨c1, b⟩ := q
+    simp only [hA, Option.map_some, Option.some.injEq] at h1
+    have h2 := codeAdds_abs mid c1
+    cases hB : codeAdds c1 mid with
+    | none => simp [hB] at h2
+    | some c2 =>
+      simp only [hB, Option.map_some, Option.some.injEq] at h2
+      have h3 := code_add_refines_model c2 id salt
+      cases hC : Gen.Code.ReplayCache.Add c2 id salt with
+      | none => simp [hC] at h3
+      | some r =>
+        obtain ⟨c3, b3⟩ := r
+        simp only [hC, Option.map_some, Option.some.injEq] at h3
+        refine ⟨c1, b, c2, c3, rfl, hB, ?_⟩
+        have hn : numAdds (mid.map fun p => Op.add (Replay.preHash p.1 p.2)) < N := by
+          rw [Tie.Replay.numAdds_map_add]; exact hnum
+        have hcap' : (N : Int) ≤ (Tie.Replay.abs c0).cap := hcap
+        have hw := window (N := N) (Tie.Replay.abs c0) (Replay.preHash id salt) _ hcap' (Tie.Replay.capsGE_map_add N mid) hn
+        have e1 : Tie.Replay.abs c1 = ((Tie.Replay.abs c0).add (Replay.preHash id salt)).1 := by rw [← h1]
+        rw [← e1, ← h2] at hw
+        have : b3 = false := by
+          have := congrArg Prod.snd h3
+          simp only at this
+          rw [this]; exact hw
+        rw [hC, this]
 
 end OutlineModel.Props.C07
